@@ -25,7 +25,10 @@ NAMES = ["x", "y", "z", "foo", "bar_1", "_tmp", "value", "n2", "Some", "None", "
 TYPE_NAMES = ["Int", "String", "List", "Option", "T", "Foo", "Unit", "Result"]
 STRUCT_NAMES = ["Foo", "Point", "P2", "Config"]
 STRINGS = ["", "a", "hello world", "q\"uote", "back\\slash", "line\nbreak", "tab\there", "é", "日本語 ok",
-           "// not a comment", "{ } ( )", "x + y", "\\n literal"]
+           "// not a comment", "{ } ( )", "x + y", "\\n literal",
+           # boundary alphabet for the escape / closing-quote logic (values, not source text)
+           "\\", "\\\\", "\\\\\\", "a\\", "ab\\\\", "\"", "a\"", "\\\"", "\"\\", "\\\"\\", "\"\"",
+           "\n", "\t", "end\n", "\\n", "\\t", "{", "}", "{}", "}{", "\\{", "é\\", "日\"", "'", "\\'"]
 FLOATS = ["1.5", "0.25", "-2.5", "10.0", "3.14159", "100.125", "-0.5"]
 INTS = [0, 1, 2, 3, 7, 10, 42, -1, -5, 123456789, 9223372036854775807, -9223372036854775808]
 
@@ -86,7 +89,7 @@ class Gen:
             return ("int", self.rng.choice(INTS))
         if r < 0.4:
             return ("float", self.rng.choice(FLOATS))
-        if r < 0.55:
+        if r < 0.6:
             return ("str", self.rng.choice(STRINGS))
         if r < 0.95:
             return ("var", self.name())
